@@ -456,6 +456,9 @@ def gates_stream(ctx, lad):
                 r += [rat(p[0]), rat(p[1])]
                 gs.append(gqj(*u))
             cmp_later(case, 'Quartic', U, model('quartic', r, gs))
+            if all(float(w.real * 1024).is_integer() and float(w.imag * 1024).is_integer() for w in ws):
+                cmp_later(case, 'Quartic.qubit_generator_matrix', np.asarray(g.qubit_generator_matrix),
+                          model('quarticGenerator', [], [to_gq(w) for w in ws]))
             Hdoc = -(fermi_H(4, {((0, 1), (3, 1), (1, 0), (2, 0)): ws[0]})
                      + fermi_H(4, {((0, 1), (2, 1), (1, 0), (3, 0)): ws[1]})
                      + fermi_H(4, {((0, 1), (1, 1), (2, 0), (3, 0)): ws[2]}))
@@ -504,6 +507,11 @@ def gates_stream(ctx, lad):
             if mode == 'general':
                 cmp_later(case, 'Cubic.qubit_generator_matrix (general weights)', np.asarray(g.qubit_generator_matrix),
                           model('cubicGenerator', [], [to_gq(w) for w in wts]))
+                okq, gq4 = safe(st, 'QuarticFermionicSimulationGate', case,
+                                lambda: of.QuarticFermionicSimulationGate(wts, exponent=t))
+                if okq:
+                    cmp_later(case, 'Quartic.qubit_generator_matrix (dyadic weights)', np.asarray(gq4.qubit_generator_matrix),
+                              model('quarticGenerator', [], [to_gq(w) for w in wts]))
             if mode == 'single' and wk != 0:
                 cmp_later(case, 'Cubic(single weight)', U,
                           model('cubicSingle', [rat(p0[0]), rat(p0[1])], [gqj(*u0)], k))
